@@ -134,7 +134,7 @@ _CERTS: list | None = None
 
 
 def cert_pool():
-    """three self-signed certificates (EC, Ed25519, RSA) as (der, sha256-hex fingerprint); generated once per process"""
+    """four self-signed certificates (EC, Ed25519, RSA, and a look-alike of the first) as (der, sha256-hex fingerprint); generated once per process"""
     global _CERTS
     if _CERTS is None:
         import datetime
@@ -146,10 +146,12 @@ def cert_pool():
         from cryptography.x509.oid import NameOID
 
         out = []
-        for i, key in enumerate([ec.generate_private_key(ec.SECP256R1()), ed25519.Ed25519PrivateKey.generate(), rsa.generate_private_key(65537, 2048)]):
-            name = x509.Name([x509.NameAttribute(NameOID.COMMON_NAME, f"client{i}")])
+        # the 4th certificate is a look-alike of the 1st: same subject, issuer and serial number, another key
+        for i, key in enumerate([ec.generate_private_key(ec.SECP256R1()), ed25519.Ed25519PrivateKey.generate(), rsa.generate_private_key(65537, 2048),
+                                 ec.generate_private_key(ec.SECP256R1())]):
+            name = x509.Name([x509.NameAttribute(NameOID.COMMON_NAME, f"client{i % 3}")])
             now = datetime.datetime(2026, 1, 1)
-            cert = (x509.CertificateBuilder().subject_name(name).issuer_name(name).public_key(key.public_key()).serial_number(1000 + i)
+            cert = (x509.CertificateBuilder().subject_name(name).issuer_name(name).public_key(key.public_key()).serial_number(1000 + i % 3)
                     .not_valid_before(now).not_valid_after(now + datetime.timedelta(days=3650))
                     .sign(key, None if isinstance(key, ed25519.Ed25519PrivateKey) else hashes.SHA256()))
             der = cert.public_bytes(serialization.Encoding.DER)
@@ -323,22 +325,30 @@ def wellformed_trace(acts) -> tuple[bool, str]:
 
 
 def match_tokens(tokens: list[str], acts) -> bool:
-    """compare the model's output tokens (w:<hex> | ~NN | close) with the implementation's trace"""
-    if len(tokens) != len(acts):
+    """compare the model's output tokens (w:<hex> | ~NN | close) with the implementation's trace.
+    Writes are compared as a byte stream (the implementation may hand a body to the transport in pieces);
+    `close` must sit at the same place."""
+    def split(seq, is_close, payload):
+        groups, cur = [], []
+        for x in seq:
+            if is_close(x):
+                groups.append(cur)
+                cur = []
+            else:
+                cur.append(payload(x))
+        return groups, cur
+    tg, trest = split(tokens, lambda t: t == "close", lambda t: t)
+    ag, arest = split(acts, lambda a: a == ["close"], lambda a: bytes.fromhex(a[1]))
+    if len(tg) != len(ag) or bool(trest) != bool(arest):
         return False
-    for tok, a in zip(tokens, acts):
-        if tok == "close":
-            if a != ["close"]:
-                return False
-        elif tok.startswith("~"):
-            if a[0] != "w":
-                return False
-            raw = bytes.fromhex(a[1])
+    for toks, writes in list(zip(tg, ag)) + ([(trest, arest)] if trest else []):
+        raw = b"".join(writes)
+        if any(t.startswith("~") for t in toks):
             pr = parse_response(raw)
-            if pr is None or pr[0] != int(tok[1:]) or pr[2]:
+            if len(toks) != 1 or pr is None or pr[0] != int(toks[0][1:]) or pr[2]:
                 return False
         else:
-            want = "" if tok == "w:-" else tok[2:]
-            if a[0] != "w" or a[1] != want:
+            want = b"".join(b"" if t == "w:-" else bytes.fromhex(t[2:]) for t in toks)
+            if raw != want or (bool(toks) != bool(writes)):
                 return False
     return True
